@@ -2,6 +2,8 @@
 package props
 
 import (
+	"os"
+	"runtime/debug"
 	"strings"
 	"encoding/hex"
 	"fmt"
@@ -60,6 +62,7 @@ type Setup struct {
 	MaxTx    int
 	Between  func(e *core.Engine, rng *rand.Rand, blockNo int) []*core.Step
 	PlanHook func(e *core.Engine, rng *rand.Rand, st *core.Step, gc *gen.Ctx) // last word on the block step (absences, dt, byzantine txs)
+	PreBlock func(e *core.Engine, rng *rand.Rand, st *core.Step) []*core.Step  // steps to run right before the planned block (e.g. CheckTx of its inputs)
 	Extra    []byte
 	Sess     *gen.Session // optional: created by MakeSetup so that the policy can see emitted txs
 }
@@ -101,6 +104,9 @@ func (p *ClusterProp) Run(seed uint64, tier string, tr *core.Trace) (out *RunOut
 				return
 			}
 			out.HarnessErr = fmt.Sprintf("unexpected panic in harness: %v", rec)
+			if os.Getenv("OLSIM_DEBUG") != "" {
+				debug.PrintStack()
+			}
 		}
 	}()
 	var policy core.SitePolicy
@@ -198,6 +204,17 @@ func (p *ClusterProp) Run(seed uint64, tier string, tr *core.Trace) (out *RunOut
 			}
 			if su.PlanHook != nil {
 				su.PlanHook(e, rng, st, gc)
+			}
+			if su.PreBlock != nil {
+				for _, ps := range su.PreBlock(e, rng, st) {
+					e.StepIdx = len(tr.Steps)
+					if stopped = exec(len(tr.Steps), ps); stopped {
+						break
+					}
+				}
+				if stopped {
+					break
+				}
 			}
 			e.StepIdx = len(tr.Steps)
 			stopped = exec(len(tr.Steps), st)
